@@ -163,6 +163,9 @@ impl CoreInner {
 		let mut lockfile = LockFile::new(&opts.path);
 		lockfile.acquire()?;
 
+		// The directory is ours: create all required directory structure
+		create_directory_structure(&opts)?;
+
 		// Initialize immutable memtables
 		let immutable_memtables = Arc::new(RwLock::new(ImmutableMemtables::default()));
 
@@ -1573,8 +1576,10 @@ impl Tree {
 		// Validate options before creating the tree
 		opts.validate()?;
 
-		// Create all required directory structure
-		Self::create_directory_structure(&opts)?;
+		// Only the base directory (it holds the lock file) is created before the lock is
+		// taken; `CoreInner::new` creates the rest once it owns the directory, so an
+		// opener that is refused leaves the holder's directory untouched.
+		create_dir_all(&opts.path)?;
 
 		// Create the core LSM tree components
 		let core = Core::new(Arc::clone(&opts))?;
@@ -1588,28 +1593,6 @@ impl Tree {
 		Ok(Self {
 			core: Arc::new(core),
 		})
-	}
-
-	/// Creates all required directory structure for the LSM tree
-	fn create_directory_structure(opts: &Options) -> Result<()> {
-		// Create base directory
-		create_dir_all(&opts.path)?;
-
-		// Create all subdirectories
-		create_dir_all(opts.sstable_dir())?;
-		create_dir_all(opts.wal_dir())?;
-		create_dir_all(opts.manifest_dir())?;
-
-		// Create VLog directories
-		if opts.enable_vlog {
-			create_dir_all(opts.vlog_dir())?;
-		}
-
-		if opts.enable_versioning {
-			create_dir_all(opts.versioned_index_dir())?;
-		}
-
-		Ok(())
 	}
 
 	/// Transactions provide a consistent, atomic view of the database.
@@ -2073,6 +2056,28 @@ pub(crate) fn fsync_directory<P: AsRef<Path>>(path: P) -> std::io::Result<()> {
 		let file = File::open(path)?;
 		debug_assert!(file.metadata()?.is_dir());
 		file.sync_all()?;
+	}
+
+	Ok(())
+}
+
+/// Creates all required directory structure for the LSM tree
+fn create_directory_structure(opts: &Options) -> Result<()> {
+	// Create base directory
+	create_dir_all(&opts.path)?;
+
+	// Create all subdirectories
+	create_dir_all(opts.sstable_dir())?;
+	create_dir_all(opts.wal_dir())?;
+	create_dir_all(opts.manifest_dir())?;
+
+	// Create VLog directories
+	if opts.enable_vlog {
+		create_dir_all(opts.vlog_dir())?;
+	}
+
+	if opts.enable_versioning {
+		create_dir_all(opts.versioned_index_dir())?;
 	}
 
 	Ok(())
